@@ -74,6 +74,10 @@ u8 __verif_cttz8(u8 x, u1 z) { (void)z; return x ? (u8)__verif_cttz32(x, 0) : 8;
 u16 __verif_bswap16(u16 x) { return (u16)((x >> 8) | (x << 8)); }
 u32 __verif_bswap32(u32 x) { return (x >> 24) | ((x >> 8) & 0xff00u) | ((x << 8) & 0xff0000u) | (x << 24); }
 u64 __verif_bswap64(u64 x) { return ((u64)__verif_bswap32((u32)x) << 32) | __verif_bswap32((u32)(x >> 32)); }
+u8 __verif_fshl8(u8 a, u8 b, u8 c) { c &= 7; return c ? (u8)((a << c) | (b >> (8 - c))) : a; }
+u8 __verif_fshr8(u8 a, u8 b, u8 c) { c &= 7; return c ? (u8)((a << (8 - c)) | (b >> c)) : b; }
+u16 __verif_fshl16(u16 a, u16 b, u16 c) { c &= 15; return c ? (u16)((a << c) | (b >> (16 - c))) : a; }
+u16 __verif_fshr16(u16 a, u16 b, u16 c) { c &= 15; return c ? (u16)((a << (16 - c)) | (b >> c)) : b; }
 u32 __verif_fshl32(u32 a, u32 b, u32 c) { c &= 31; return c ? (a << c) | (b >> (32 - c)) : a; }
 u64 __verif_fshl64(u64 a, u64 b, u64 c) { c &= 63; return c ? (a << c) | (b >> (64 - c)) : a; }
 u32 __verif_fshr32(u32 a, u32 b, u32 c) { c &= 31; return c ? (a << (32 - c)) | (b >> c) : b; }
@@ -191,7 +195,24 @@ u32 ext_wmemcmp(u32* a, u32* b, u64 n) {
 u64 ext_wcslen(u32* s) { u64 i = 0; while (s[i]) i++; return i; }
 
 /* ---- allocation: operator new never fails (allocation failure is outside every claim) ---- */
-static u8* rt_alloc(u64 n) { u8* p = (u8*)malloc(n ? n : 1); RT_ASSUME(p != 0); return p; }
+/* exact-size allocation.  With -DRT_ALLOC_UNIT=u -DRT_ALLOC_MAXK=k (obligations over containers of at most k elements of u bytes)
+ * every request must be one of 0, u, 2u, ..., k*u bytes and is served by a malloc of that CONSTANT size: constant-size objects are
+ * bit-blasted, symbolic-size ones go through cbmc's array theory (which did not terminate on vector reallocation paths).
+ * The object is still exactly n bytes, so bounds checks lose nothing; a request outside the list fails an assertion. */
+static u8* rt_alloc(u64 n) {
+  u8* p;
+#if defined(RT_ALLOC_UNIT) && defined(__CPROVER__)
+  p = 0;
+  if (n == 0) p = (u8*)malloc(1);
+  for (u64 k = 1; k <= RT_ALLOC_MAXK; k++) if (n == k * RT_ALLOC_UNIT) p = (u8*)malloc(k * RT_ALLOC_UNIT);
+  RT_ASSERT(p != 0 || n > RT_ALLOC_MAXK * RT_ALLOC_UNIT || n % RT_ALLOC_UNIT != 0, "allocation");
+  if (p == 0) { RT_ASSERT(0, "allocation size outside the bound stated for this obligation"); RT_ASSUME(0); }
+#else
+  p = (u8*)malloc(n ? n : 1);
+#endif
+  RT_ASSUME(p != 0); return p;
+}
+u8* __verif_alloc_exact(u64 n) { return rt_alloc(n); }
 u8* ext__Znwm(u64 n) { return rt_alloc(n); }
 u8* ext__Znam(u64 n) { return rt_alloc(n); }
 void ext__ZdlPv(u8* p) { free(p); }
